@@ -10,7 +10,7 @@ def items():
 
 def run(tier='quick', seed=0, only=None):
     its = [i for i in items() if not only or only in i.cid]
-    bounded = [] if only else [codecs.partial_lengths_bounded, codecs.timestamps_bounded]
+    bounded = [] if only else [codecs.partial_lengths_bounded, codecs.timestamps_bounded, codecs.mpi_reencode_bounded]
     return runner.run_property(PID, its, bounded=bounded, tier=tier, seed=seed, level='proof',
                                trusted_base=['pyvc symbolic executor', 'z3 5.1 / cvc5 1.0.3', 'CPython semantics of modelled builtins',
                                              'spec functions in /verif/specs/lengths.py, mpi.py transcribe RFC 4880 3.2, 4.2, 5.2.3.1'],
